@@ -295,6 +295,8 @@ CHECKS = {
             mc("raw", "MC_C06.tla", "MC_C06_raw.cfg", replay_cmd="replay-lit"),
             mc("hex", "MC_C06.tla", dict(quick=None, thorough="MC_C06_hex.cfg"), replay_cmd="replay-lit"),
             mc("hex5", "MC_C06.tla", dict(quick="MC_C06_hex5.cfg", thorough=None), replay_cmd="replay-lit"),
+            mc("int-boundaries", "MC_C06.tla", "MC_C06_intbounds.cfg", replay_cmd="replay-lit", workers=2),
+            mc("index-boundaries", "MC_C06.tla", "MC_C06_indexbounds.cfg", replay_cmd="replay-lit", workers=2),
             mc("ip-items", "MC_C06.tla", dict(quick="MC_C06_ip6.cfg", thorough="MC_C06_ip7.cfg"), replay_cmd="replay-lit"),
             mc("ip-addresses", "MC_C06.tla", dict(quick="MC_C06_ipeq6.cfg", thorough="MC_C06_ipeq7.cfg"), replay_cmd="replay-lit"),
             mc("ip-blocks-and-ranges", "MC_C06.tla", "MC_C06_blocks.cfg", replay_cmd="replay-lit"),
